@@ -176,6 +176,20 @@ def judge_tuple(ctx, rng, j):
         return
     R, sa = st
     nt = tk not in ('clamped',)
+    # ---- the registers the instruction documents ("can be used in code with
+    # @R, @T, and @sa"): read back, they ARE the adapter and its point
+    st, exc = run(isa.push(seed) + pm + isa.push(T)
+                  + O('MAKE_ADAPTER_SIG_PUBLIC') + O('POP1') + b'\x02'
+                  + O('READ_CACHE') + b'\x01R' + O('READ_CACHE') + b'\x02sa'
+                  + O('READ_CACHE') + b'\x01T')
+    ctx.evaluated()
+    if exc is not None or st != [R, sa, T]:
+        ctx.violation('adapter-registers-differ', 'after '
+                      'MAKE_ADAPTER_SIG_PUBLIC the registers @R @sa @T are '
+                      'not the adapter (R, sa) it returned and its tweak '
+                      'point', base, [R.hex(), sa.hex(), T.hex()],
+                      repr(exc)[:80] if exc else [x.hex() for x in st])
+        return
     # ---- check passes
     st, exc = run(cas_prog(X, T, m, R, sa))
     ctx.evaluated()
